@@ -41,11 +41,17 @@ Functions == << F("range", {}, <<A("end", "int", TRUE), A("start", "int", FALSE)
 ClearlyWrong(f) == CASE f.recv = {"str"} -> {"arr", "map", "none"} [] f.recv \subseteq {"arr", "map"} -> {"int", "float", "bool", "none"} \cup (IF "str" \in f.recv THEN {} ELSE {})
                      [] f.recv \subseteq Num \/ f.recv = {"str", "int", "float"} -> {"arr", "map", "none"}
                      [] OTHER -> {}
-ArgStates == {"absent", "right", "wrong"}
+\* "none": the argument is passed and its value is none -- a value like any other: fine for an `any` argument, mistyped otherwise
+\* (never "not passed").  "edge": an integer at or beyond the range of the argument's machine type: no-panic only
+ArgStates == {"absent", "right", "wrong", "none", "edge"}
 \* the cell oracle: "ok" | "err-missing" | "err-type" | "err" | "any" (no-panic only)
 Cell(f, recv, st) ==      \* st: sequence of ArgStates, one per argument
   LET missing == \E i \in 1..Len(f.args) : f.args[i].req /\ st[i] = "absent"
-      wrong == \E i \in 1..Len(f.args) : st[i] = "wrong" /\ f.args[i].k # "any" IN
+      wrong == \E i \in 1..Len(f.args) : st[i] \in {"wrong", "none"} /\ f.args[i].k # "any"
+      edge == \E i \in 1..Len(f.args) : st[i] = "edge" IN
+  IF edge THEN "any"
+  ELSE IF f.name = "containing" /\ recv = "str" /\ (\E i \in 1..Len(st) : st[i] = "none") THEN "any"     \* a pattern for a string is a string
+  ELSE
   IF recv \in f.recv \/ f.recv = {} THEN
      (IF missing /\ ~wrong THEN "err-missing" ELSE IF wrong /\ ~missing THEN "err-type" ELSE IF missing /\ wrong THEN "err" ELSE
       IF f.name \in {"throw"} THEN "err" ELSE IF f.name \in {"int", "float", "sort", "group_by", "get", "round", "nth"} THEN "any" ELSE "ok")
